@@ -26,8 +26,9 @@ def unesc(s):
     return s.replace("\\n", "\n").replace("\\t", "\t").replace("\\\\", "\\")
 
 
-def replay_obj(failat, sources, kind, detail, extra=None):
-    o = {"kind": kind, "failat": failat, "texts": [unesc(t) for t in sources], "names": ["x", "y", "f", "zz1"],
+def replay_obj(failat, sources, kind, detail, extra=None, entry="EvalString"):
+    o = {"kind": kind, "failat": failat, "texts": [unesc(t) for t in sources], "names": ["x", "y", "f", "zz1", "zzAfter"],
+         "load_run": entry == "LoadString+Run", "entry_point": entry,
          "detail": detail,
          "replay": "bin/check C05 --replay <this file>  (evaluates the texts in a fresh interpreter for every failure kind; "
                    "failk raises on its failat-th call; prints every kind's outcomes and the anomalies)"}
@@ -87,12 +88,13 @@ def main(argv):
                     anoms = [x for x in (a[3].split(" || ") if len(a) > 3 and a[3] else []) if x]
                     sources = a[4].split(" ;; ") if len(a) > 4 else []
                     roles = a[5] if len(a) > 5 else ""
+                    entry = a[6] if len(a) > 6 else "EvalString"
                     m = re.match(r"failat=(\d+)", inp)
                     failat = int(m.group(1)) if m else 0
                     if anoms:
                         # no known finding is listed for C05: every anomaly is a violation
                         prop.append((len(a[4]) if len(a) > 4 else 0, replay_obj(failat, sources, "property failure: " + anoms[0].split(" ")[0],
-                                                                                 anoms[:6], {"case": cid, "implementation": impl[:1500]})))
+                                                                                 anoms[:6], {"case": cid, "implementation": impl[:1500]}, entry)))
                     model = b[1]
                     if model == "SKIP":
                         stats["sessions_without_model"] += 1
@@ -118,14 +120,14 @@ def main(argv):
                         if x.startswith("E:") and y.startswith("E:") and "user" not in (x, y)[0] and "user" not in y:
                             continue          # error classes are read off the message text; only the injected one is exact
                         src = sources[i] if i < len(sources) else ""
-                        if "zz1" in src and x.startswith("V:"):
+                        if ("zz1" in src or "zzAfter" in src) and x.startswith("V:"):
                             prop.append((len(a[4]), replay_obj(failat, sources, "property failure: a text that is rejected as a whole took effect",
-                                                               ["the interlude text (rejected with an error) left zz1 defined: %s evaluates to %s (model %s)" % (unesc(src), x, y)],
-                                                               {"case": cid})))
+                                                               ["a text that was rejected with an error left a marker defined: %s evaluates to %s (model %s)" % (unesc(src), x, y)],
+                                                               {"case": cid}, entry)))
                         elif role == "i" and x.startswith("V:"):
                             prop.append((len(a[4]), replay_obj(failat, sources, "property failure: error swallowed into a successful result",
                                                                ["text %d %s must be rejected as a whole (model %s) but evaluated to %s" % (i, unesc(src), y, x)],
-                                                               {"case": cid})))
+                                                               {"case": cid}, entry)))
                         else:
                             corr.append({"case": cid, "failat": failat, "text_index": i, "text": unesc(src), "implementation": x, "model": y,
                                          "texts": [unesc(t) for t in sources]})
